@@ -19,10 +19,14 @@ def make_signal(u):
     if n:
         x += np.round(1500 * np.sin(np.arange(n) * 0.05 * (1 + (u["seed"] % 7)))[None, :])
     x = np.clip(x, -32768, 32767)
+    sil = u.get("silence")
+    if sil and n:
+        a = int(sil[0] * n)
+        x[:, a : a + max(1, int(sil[1] * n))] = 0.0  # a muted stretch: exact digital silence
     return x  # channels first (C, S)
 
 
-def gen_corpus(rng, nutt, allow_multi=False, containers=CONTAINERS, short_ok=True):
+def gen_corpus(rng, nutt, allow_multi=False, containers=CONTAINERS, short_ok=True, hash_ids=False):
     ids = []
     shapes = rng.choice(("plain", "plain", "prefix", "odd"))
     for i in range(nutt):
@@ -32,6 +36,8 @@ def gen_corpus(rng, nutt, allow_multi=False, containers=CONTAINERS, short_ok=Tru
             ids.append(None)  # filled below: ids that are prefixes of one another, in seeded order
         else:
             ids.append(["a", "a1", "a-1", "B_2", "a.b", "utt", "utt1", "z9"][i % 8] + ("" if i < 8 else str(i)))
+            if hash_ids and i % 3 == 1:
+                ids[-1] = "#" + ids[-1]  # an id may start with any non-blank character
     if shapes == "prefix":
         pool = ["u", "ua", "uab", "uabc", "utt1", "utt10", "utt100", "utt11", "b", "b-1"]
         ids = rng.sample(pool, nutt)
@@ -49,6 +55,8 @@ def gen_corpus(rng, nutt, allow_multi=False, containers=CONTAINERS, short_ok=Tru
         u = {"id": uid, "container": rng.choice(cs), "n": n, "seed": rng.randrange(1 << 30),
              "channels": rng.choice((2, 3)) if multi else 1,
              "store_dtype": rng.choice(("float64", "float32", "int16"))}
+        if rng.random() < 0.15 and n > 50:
+            u["silence"] = [rng.choice((0.0, 0.3, 0.6)), rng.choice((0.2, 0.4, 1.0))]
         if u["container"] == "wav":
             u["channels"] = 1  # read_signal gives wav as time x channels; the torch tool wants channels first
         corpus.append(u)
